@@ -159,7 +159,11 @@ def accumulate_indices_means_vars(data, means):
     means_sum = np.zeros((n_clusters, n_features), like=data)
     variances_sum = np.zeros((n_clusters, n_features), like=data)
     for i in range(n_clusters):
-        means_sum[i] = np.sum(data[closest_centroid_indices == i], axis=0)
+        # sum in double precision: a half- or single-precision running sum
+        # loses the low digits the variance (sum_xx / n - mean**2) depends on
+        means_sum[i] = np.sum(
+            data[closest_centroid_indices == i], axis=0, dtype=float
+        )
     for i in range(n_clusters):
         # square in double precision: the squares of narrow integer samples
         # (e.g. uint8 pixels) do not fit the samples' own type
